@@ -294,4 +294,63 @@ example := lsolve_spec false 13 11 exM 0 exRhs 0 (by simp [exRhs])
 example := matvec_spec true 13 5 11 exM 0 exRhs 0 exY (by simp [exY])
 example : ∀ i, i < 11 → exU[0 + (i + i * 13)]! ≠ 0 := by decide +kernel
 
+/-- **C01 (own BLAS: `snode_bmod`).** One relaxed supernode `fsupc..jcol` with row subscripts
+`lsub[istart .. istart+nsupr-1]` (distinct, inside `dense`), its finished columns `fsupc..jcol-1`
+stored with leading dimension `nsupr` from `luptr` on, before the cells `ufirst .. ufirst+nsupr-1` of
+column `jcol`; `tempv` zero on `0..nrow-1`.  After the call, with `u = fwdSub` of the unit lower
+diagonal block applied to the gathered `dense`:
+(i) the first `nsupc` cells of column `jcol` hold `u` (the U-segment); (ii) the cells below hold
+`dense[row i] − Σ_r L(i,r)·u_r`; nothing else in `lusup` changed; `dense` is zero on the rows of the
+supernode and unchanged elsewhere; `tempv` is as before (zero again); `xlusup[jcol+1]` is set.
+Holds for `jcol = fsupc` too (no update, plain copy). -/
+theorem snodeBmod_spec (cplx : Bool) (jcol fsupc : Nat) (lsub xlsub : Array Nat) (st : SnodeSt K)
+    (istart nsupr ufirst luptr nsupc : Nat)
+    (e1 : istart = xlsub[fsupc]!) (e2 : nsupr = xlsub[fsupc + 1]! - istart)
+    (e3 : ufirst = st.xlusup[jcol]!) (e4 : luptr = st.xlusup[fsupc]!) (e5 : nsupc = jcol - fsupc)
+    (hle : fsupc ≤ jcol)
+    (hinj : ∀ t u, t < nsupr → u < nsupr → lsub[istart + t]! = lsub[istart + u]! → t = u)
+    (hrow : ∀ t, t < nsupr → lsub[istart + t]! < st.dense.size)
+    (hcol : ufirst + nsupr ≤ st.lusup.size) (hwid : nsupc ≤ nsupr)
+    (hbefore : luptr + nsupc * nsupr ≤ ufirst)
+    (htv : nsupr - nsupc ≤ st.tempv.size) (htz : ∀ i, i < nsupr - nsupc → st.tempv[i]! = 0) :
+    let u := fwdSub (fun i r => st.lusup[luptr + (r * nsupr + i)]!) (fun _ => 1) (fun t => st.dense[lsub[istart + t]!]!) nsupc
+    let o := snodeBmod cplx jcol fsupc lsub xlsub st
+    o.lusup.size = st.lusup.size ∧
+    (∀ t, t < nsupc → o.lusup[ufirst + t]! = u.getD t 0) ∧
+    (∀ i, nsupc ≤ i → i < nsupr → o.lusup[ufirst + i]! =
+      st.dense[lsub[istart + i]!]! - ∑ r ∈ range nsupc, st.lusup[luptr + (r * nsupr + i)]! * u.getD r 0) ∧
+    (∀ p, (p < ufirst ∨ ufirst + nsupr ≤ p) → o.lusup[p]! = st.lusup[p]!) ∧
+    o.dense.size = st.dense.size ∧
+    (∀ t, t < nsupr → o.dense[lsub[istart + t]!]! = 0) ∧
+    (∀ r, (∀ t, t < nsupr → lsub[istart + t]! ≠ r) → o.dense[r]! = st.dense[r]!) ∧
+    o.tempv.size = st.tempv.size ∧ (∀ i : Nat, o.tempv[i]! = st.tempv[i]!) ∧
+    o.xlusup = st.xlusup.setIfInBounds (jcol + 1) (ufirst + nsupr) := by
+  intro u o
+  apply snodeBmod_spec' cplx jcol fsupc lsub xlsub st istart nsupr ufirst luptr nsupc e1 e2 e3 e4 e5 hle hinj hrow hcol hwid
+    hbefore htv htz (fun t => u.getD t 0)
+  intro i hi
+  rw [fwd_rec _ _ _ nsupc i hi, div_one]
+  congr 1
+  exact Finset.sum_congr rfl (fun j _ => mul_comm _ _)
+
+/-! A supernode with `nsupc = 11` finished columns (8 + 2 + 1), `nrow = 5` rows below the diagonal
+block: `fsupc = 2`, `jcol = 13`, `nsupr = 16`, subscripts start at 1, values at 3. -/
+def exLsub : Array Nat := #[9, 3, 7, 0, 12, 5, 14, 1, 16, 10, 8, 2, 15, 4, 11, 6, 13]
+def exXlsub : Array Nat := #[0, 1, 1, 17]
+def exXlusup : Array Nat := (Array.range 15).map fun c => if c < 2 then 0 else if c = 14 then 0 else 3 + (c - 2) * 16
+def exLusup : Array Rat := (Array.range (3 + 12 * 16)).map fun k => ((((k * 5 + 1) % 3 : Nat) : Int) - 1 : Int)
+def exDense : Array Rat := (Array.range 18).map fun k => ((((k * 3 + 2) % 5 : Nat) : Int) - 2 : Int)
+def exSt : SnodeSt Rat := { lusup := exLusup, xlusup := exXlusup, dense := exDense, tempv := Array.replicate 6 0 }
+
+example : (snodeBmod false 13 2 exLsub exXlsub exSt).lusup.extract 179 195 =
+    #[-1, 0, 1, 0, -1, 4, -8, -10, 14, -31, -28, 59, -56, -3, 57, -59] := by decide +kernel
+example : (snodeBmod true 13 2 exLsub exXlsub exSt).lusup.extract 179 195 =
+    #[-1, 0, 1, 0, -1, 4, -8, -10, 14, -31, -28, 59, -56, -3, 57, -59] := by decide +kernel
+example : (snodeBmod false 13 2 exLsub exXlsub exSt).dense = #[0, 0, 0, 0, 0, 0, 0, 0, 0, 2, 0, 0, 0, 0, 0, 0, 0, 1] := by
+  decide +kernel
+theorem exLsub_distinct : ∀ t, t < 16 → ∀ u, u < 16 → exLsub[1 + t]! = exLsub[1 + u]! → t = u := by decide +kernel
+example := snodeBmod_spec false 13 2 exLsub exXlsub exSt 1 16 179 3 11 (by decide +kernel) (by decide +kernel)
+  (by decide +kernel) (by decide +kernel) (by decide) (by decide) (fun t u ht hu => exLsub_distinct t ht u hu) (by decide +kernel) (by decide +kernel)
+  (by decide) (by decide) (by decide +kernel) (by decide +kernel)
+
 end Slu.MyBlas2
